@@ -11,7 +11,7 @@ from __future__ import annotations
 
 import ast
 
-from ..model import AnalysisError, FuncInfo, call_name, last_attr, names_in, unparse, walk_no_nested
+from ..model import AnalysisError, FuncInfo, bind_args, call_name, last_attr, names_in, unparse, walk_no_nested
 
 MATCH = "codemodder.registry.CodemodRegistry.match_codemods"
 RUN = "codemodder.codemodder.run"
@@ -565,6 +565,101 @@ def rule_registry_order(ctx, rep):
               "registry is built by iterating " + ", ".join(f"`{unparse(src)[:50]}`" for _, src, _ in bad) + ": codemod order depends on the hash seed")
 
 
+MUTATING_METHODS = {"append", "extend", "insert", "remove", "pop", "clear", "sort", "reverse", "update", "add", "discard", "setdefault", "popitem", "difference_update", "intersection_update"}
+
+
+def _mutated_params(ctx, fn, depth: int = 2, _seen=None) -> set[str]:
+    """parameters of `fn` whose object is changed in place by fn (a mutating method, item / slice store, `del p[..]`, `p += ..`), directly or
+    by handing them on to a repo function that does (depth-bounded)"""
+    _seen = _seen if _seen is not None else set()
+    if fn.qname in _seen:
+        return set()
+    _seen.add(fn.qname)
+    params = set(fn.params())
+    out = set()
+    r = ctx.resolver(fn)
+    for n in walk_no_nested(fn.node):
+        if isinstance(n, ast.Call) and isinstance(n.func, ast.Attribute) and n.func.attr in MUTATING_METHODS and isinstance(n.func.value, ast.Name) and n.func.value.id in params:
+            out.add(n.func.value.id)
+        elif isinstance(n, (ast.Assign, ast.AugAssign, ast.Delete)):
+            tgts = n.targets if isinstance(n, (ast.Assign, ast.Delete)) else [n.target]
+            for t in tgts:
+                if isinstance(t, ast.Subscript) and isinstance(t.value, ast.Name) and t.value.id in params:
+                    out.add(t.value.id)
+                if isinstance(n, ast.AugAssign) and isinstance(t, ast.Name) and t.id in params:
+                    out.add(t.id)  # `p += [...]` extends a list in place
+        elif isinstance(n, ast.Call) and depth > 0:
+            for t in r.resolve_call(n):
+                if isinstance(t, FuncInfo) and t is not fn:
+                    mp = _mutated_params(ctx, t, depth - 1, _seen)
+                    if mp:
+                        b = bind_args(n, t, isinstance(n.func, ast.Attribute) and t.cls is not None and "staticmethod" not in t.decorators())
+                        for p_, a in b.items():
+                            if p_ in mp and isinstance(a, ast.Name) and a.id in params:
+                                out.add(a.id)
+    # a parameter rebound before the mutation (`p = list(p)`) is a copy: not the caller's object any more
+    rebound = {t.id for n in walk_no_nested(fn.node) if isinstance(n, ast.Assign) for t in n.targets if isinstance(t, ast.Name)}
+    return out - rebound
+
+
+def rule_namespace_frozen(ctx, rep):
+    from ..sites import cli_namespace_names
+
+    rep.rule(
+        "R-CLI-NAMESPACE-FROZEN",
+        "the parsed command line is read-only in run(): no option value is assigned, changed in place (`argv.sarif.remove(..)`, `del`, `+=`) or "
+        "handed -- itself or as `argv.x or []`, which is the same list when it is non-empty -- to a repo function that changes that parameter in "
+        "place.  The eligibility mode (`sast_only`) and the include / exclude lists are derived from the option values *after* the result files "
+        "have been looked at; a helper that prunes the list it was given changes which codemods are eligible",
+        min_instances=3,
+    )
+    run = ctx.prog.func(RUN)
+    ns = cli_namespace_names(ctx, run)
+    if not ns:
+        raise AnalysisError("run(): the local holding parse_args(...) was not found")
+    r = ctx.resolver(run)
+
+    def option_of(e):
+        """`argv.x`, `argv.x or <default>` -> x"""
+        if isinstance(e, ast.BoolOp) and isinstance(e.op, ast.Or):
+            e = e.values[0]
+        if isinstance(e, ast.Attribute) and isinstance(e.value, ast.Name) and e.value.id in ns:
+            return e.attr
+        return None
+
+    n = 0
+    for a in walk_no_nested(run.node):
+        if isinstance(a, (ast.Assign, ast.AugAssign, ast.Delete)):
+            for t in (a.targets if isinstance(a, (ast.Assign, ast.Delete)) else [a.target]):
+                base = t.value if isinstance(t, ast.Subscript) else t
+                if option_of(base) is not None:
+                    n += 1
+                    rep.check("R-CLI-NAMESPACE-FROZEN", run.qname, run.loc(a), False, f"store:{option_of(base)}", f"`{unparse(a)[:60]}` changes the parsed option `{option_of(base)}`")
+        if not isinstance(a, ast.Call):
+            continue
+        if isinstance(a.func, ast.Attribute) and a.func.attr in MUTATING_METHODS and option_of(a.func.value) is not None:
+            n += 1
+            rep.check("R-CLI-NAMESPACE-FROZEN", run.qname, run.loc(a), False, f"mutate:{option_of(a.func.value)}", f"`{unparse(a)[:60]}` changes the parsed option in place")
+            continue
+        passed = [(i, x) for i, x in enumerate(a.args) if option_of(x) is not None] + [(k.arg, k.value) for k in a.keywords if k.arg and option_of(k.value) is not None]
+        if not passed:
+            continue
+        for t in r.resolve_call(a):
+            if not isinstance(t, FuncInfo):
+                continue
+            mp = _mutated_params(ctx, t)
+            b = bind_args(a, t, isinstance(a.func, ast.Attribute) and t.cls is not None and "staticmethod" not in t.decorators())
+            for p_, v in b.items():
+                if option_of(v) is None:
+                    continue
+                n += 1
+                rep.check("R-CLI-NAMESPACE-FROZEN", run.qname, run.loc(a), p_ not in mp, f"arg:{option_of(v)}->{t.name}",
+                          f"`{unparse(v)[:40]}` is handed to {t.qname}, which changes its parameter `{p_}` in place: the option value run() reads afterwards "
+                          "(eligibility mode, include / exclude lists) is no longer what the user gave")
+    if n < 3:
+        raise AnalysisError(f"run(): only {n} option values handed to repo functions found")
+
+
 def rule_sast_only_source(ctx, rep):
     rep.rule(
         "R-SAST-ONLY-SOURCE",
@@ -647,6 +742,7 @@ def check(ctx, rep):
     rule_cli_exclusive(ctx, rep)
     rule_registry_order(ctx, rep)
     rule_sast_only_source(ctx, rep)
+    rule_namespace_frozen(ctx, rep)
     from .c15 import rule_one_result
 
     rule_one_result(ctx, rep)
